@@ -56,9 +56,25 @@ def op_stub_update(w, op):
         raise Violation("C10", "manifest-link", f"latest committed container {last} of an IH5MFRecord has no manifest file")
     ldir = os.path.join(w.scratch, "siteL")
     cdir = os.path.join(w.scratch, "clone")
-    for d in (ldir, cdir):
-        shutil.rmtree(d, ignore_errors=True)
-        os.makedirs(d)
+    if op.get("keep_site") and os.path.isdir(ldir):
+        # site L keeps its working directory between updates and tidies up with the library's
+        # own delete_files (which removes the containers of the old stub, not their sidecars)
+        try:
+            IH5MFRecord.delete_files(Path(os.path.join(ldir, r.name)))
+        except Exception as e:
+            raise Violation("C10", "site-cleanup-raised", f"delete_files on the previous stub raised {type(e).__name__}: {e}")
+        for f in os.listdir(ldir):
+            if not f.endswith("mf.json"):
+                fp = os.path.join(ldir, f)
+                shutil.rmtree(fp, ignore_errors=True) if os.path.isdir(fp) else os.unlink(fp)
+        w.probe("site_L_reused", 1)
+        if any(f.endswith("mf.json") for f in os.listdir(ldir)):
+            w.probe("site_L_stale_sidecars", 1)
+    else:
+        shutil.rmtree(ldir, ignore_errors=True)
+        os.makedirs(ldir)
+    shutil.rmtree(cdir, ignore_errors=True)
+    os.makedirs(cdir)
     # ---- message 1: download the latest manifest
     shutil.copyfile(mfile, os.path.join(ldir, "latest.json"))
     w.count_fault("xfer_manifest_download")
@@ -414,7 +430,7 @@ class SitesEngine:
                 sh2.apply(u)
                 ups.append(u)
             fault = g.choice(["none", "none", "none", "none", "delay", "dup", "corrupt", "lost_manifest"])
-            su = {"op": "stub_update", "rec": 0, "ops": ups, "transport": fault, "seed": g.randrange(10**6)}
+            su = {"op": "stub_update", "rec": 0, "ops": ups, "transport": fault, "seed": g.randrange(10**6), "keep_site": g.random() < 0.6}
             if fault == "delay":
                 adv = []
                 for _ in range(g.randint(1, 3)):
